@@ -25,6 +25,8 @@ MOVE, LINE, CURVE, QCURVE, QBLOB, CLOSE, END, COMP = 1, 2, 3, 4, 5, 6, 7, 8
 PBEGIN, POFF, PMOVE, PLINE, PCURVE, PQCURVE, PEND, PCOMP = 11, 12, 13, 14, 15, 16, 17, 18
 RAW, S2P, P2S, AFF, RND, REV, REVREV, TT, T2, SVG, MEAS, DECOMP, AREANEG = range(1, 14)
 OFFGRID = 7777777
+# TLC worker threads (the judge parallelises over traces); VERIF_TLC_WORKERS lowers it on a shared machine
+WORKERS = max(1, int(os.environ.get("VERIF_TLC_WORKERS", "16") or 16))
 PRIMES = (32749, 32719, 32717, 32713)
 BSCALE = 64  # BoundsPen values travel in units of 1/(K*BSCALE), rounded; the judge allows 1 unit
 
@@ -657,7 +659,7 @@ def judge_all(chk, traces, label):
     for base in range(0, len(traces), CH):
         part = traces[base:base + CH]
         # deep recursion over long contours needs a bigger thread stack than the JVM default
-        r = chk.tlc("Trace_C14", traces=part, timeout=1500, label=label, env={"JAVA_TOOL_OPTIONS": "-Xss64m"})
+        r = chk.tlc("Trace_C14", traces=part, timeout=1500, label=label, workers=WORKERS, env={"JAVA_TOOL_OPTIONS": "-Xss64m"})
         if r.distinct < 2 * len(part):
             raise MachineryError("Trace_C14: TLC judged %d states for %d traces" % (r.distinct, len(part)))
         bad = set()
@@ -675,12 +677,14 @@ def judge_all(chk, traces, label):
             raise MachineryError("trace outside the modelled domain: %s %s on %s" % (ad, cl, json.dumps(d)[:600]))
         key = "%s:%s" % (ad, cl)
         if cl == "output-protocol" and d.get("exception"):
-            # the adapter raised on a valid outline: name the exception
+            # the adapter raised on a valid outline (TLC rejected the recorded output as not being a
+            # pen call sequence): the key names the exception and, since the one such finding on the
+            # unchanged tree is the qCurveTo(..., None) special case, whether the outline has a
+            # contour without on-curve point.  Geometry clauses are never relabelled here: their
+            # root causes are named by the judge (Trace_C14.CutDupOff).
             key = "%s:raises-%s" % (ad, d["exception"].split(" ")[0])
-        # label the input class so that root causes get distinct keys: the TrueType special case
-        # (a contour without on-curve point) is where both findings on the unchanged tree live
-        if any(c[0] == QBLOB for c in d["input"]) or all_off_contour(d["input"]):
-            key += "-on-contour-without-oncurve"
+            if any(c[0] == QBLOB for c in d["input"]) or all_off_contour(d["input"]):
+                key += "-on-contour-without-oncurve"
         chk.reject(key, "adapter %s violates clause %s on %s" % (ad, cl, json.dumps(d)[:700]),
                    {"K": t["k"], "calls": t["s"][0], "tag": t.get("tag"), "adapter": ad, "clause": cl, "run": d["run"]})
     return rejected
@@ -698,7 +702,7 @@ def run(chk):
                 "(two points), i.e. it draws something")
     # ---- (M) + generation -----------------------------------------------------------
     cfg = "MC_PenProto_thorough" if thorough else "MC_PenProto"
-    r = chk.tlc("MC_PenProto", cfg=cfg, label="MC_PenProto exhaustive", timeout=2400 if thorough else 900,
+    r = chk.tlc("MC_PenProto", cfg=cfg, label="MC_PenProto exhaustive", timeout=2400 if thorough else 900, workers=WORKERS,
                 env={"JAVA_TOOL_OPTIONS": "-Xss32m"})
     outlines = gen_outlines(r.stdout)
     n_exh = len(outlines)
